@@ -752,6 +752,33 @@ fn step(rng: &mut Rng, sink: &mut Sink, w: &mut World, focus: &str) {
                     w.track(&out, PendK::Props);
                 }
             }
+            // now and then the owner pauses inside the window of the lookup just registered, the reply arrives
+            // (any kind), the callback runs, and the service is unpaused again
+            if rng.chance(1, 4) {
+                if let Some(i) = w.pend.iter().rposition(|p| p.1 == PendK::Props && !p.2) {
+                    let id = w.pend[i].0;
+                    let owner = w.owner.clone();
+                    let out = w.tx(sink, &owner, "pause", 0, "-", &[]);
+                    if out.starts_with("ok") {
+                        w.paused = true;
+                    }
+                    let line = match rng.below(4) {
+                        0 => format!("deliver {} fail", id),
+                        1 => format!("deliver {} ok {}", id, props(b"NonFungibleESDT", b"NumDecimals-0")),
+                        _ => format!("deliver {} ok {}", id, props(b"FungibleESDT", b"NumDecimals-18")),
+                    };
+                    sink.exec(&line);
+                    let out = sink.exec(&format!("cb {}", id));
+                    w.pend.remove(i);
+                    w.track(&out, PendK::Exec);
+                    if rng.chance(3, 4) {
+                        let out = w.tx(sink, &owner, "unpause", 0, "-", &[]);
+                        if out.starts_with("ok") {
+                            w.paused = false;
+                        }
+                    }
+                }
+            }
         }
         7 => {
             // destination-minter approvals
